@@ -244,7 +244,11 @@ func (c *ServerChannel) EstablishSession(
 			negEncryptOpts = append(negEncryptOpts, v.(SessionEncryption))
 		}
 
-		if len(negCompOpts) > 1 || len(negEncryptOpts) > 1 {
+		// The negotiation is also required when the only remaining option is not the one currently in use by the
+		// transport (for instance, a server that only accepts TLS on a TCP connection that starts unencrypted).
+		if len(negCompOpts) > 1 || len(negEncryptOpts) > 1 ||
+			(len(negCompOpts) == 1 && negCompOpts[0] != c.transport.Compression()) ||
+			(len(negEncryptOpts) == 1 && negEncryptOpts[0] != c.transport.Encryption()) {
 			// Negotiate the session options
 			if err = c.negotiateSession(ctx, negCompOpts, negEncryptOpts); err != nil {
 				return err
